@@ -232,6 +232,8 @@ type famBuilders struct {
 	aug     string // augmented source tree
 	leads   map[string]int
 
+	lastRecs []any
+
 	hosts          map[string]bool // files carrying stack/exec directives
 	fullCompileCfg map[string]bool
 }
@@ -316,8 +318,114 @@ func (f *famBuilders) modelPhase() error {
 	if len(f.gen) == 0 {
 		return fmt.Errorf("model phase produced no behaviour")
 	}
-	// strict design check: the model (as configured) must satisfy the reference
-	// semantics on the whole universe for the properties that hold by design
+	// strict design check: the model (configured as the code is) must satisfy the reference
+	// semantics on the whole universe; a failure is a lead / drift, never a verdict
+	st, err := f.e.RunTLC(TLCOpts{Module: "MC_Builders", Cfg: "MC_Builders_strict.cfg", Workers: 8, Timeout: 10 * time.Minute,
+		Env: map[string]string{"VERIF_EXT": f.extPath, "VERIF_HDR_PER_LINE": f.perLine}})
+	if err == nil {
+		f.r.AddTLC(st)
+		switch {
+		case st.Healthy():
+			f.r.Coverage["design_check"] = "C17, C05, C18 hold on the model for the whole bounded universe"
+		case st.InvViol != "":
+			f.r.Coverage["design_check"] = "model violates " + st.InvViol
+			f.r.Drift = append(f.r.Drift, "design check: the build-stage model, with the chains and token tables extracted from the current code, violates "+st.InvViol)
+		}
+	}
+	return nil
+}
+
+// bindingDemo shows that the trace validation is bound to the recorded data: one recorded
+// field is corrupted, and one hook event is dropped; both traces must be rejected.
+func (f *famBuilders) bindingDemo() error {
+	if len(f.lastRecs) == 0 {
+		return nil
+	}
+	run := func(recs []any) (viol, drift int, err error) {
+		tp := filepath.Join(f.e.Scratch, fmt.Sprintf("binding-%d.ndjson", time.Now().UnixNano()))
+		if err := writeNDJSON(tp, recs); err != nil {
+			return 0, 0, err
+		}
+		res, err := f.e.RunTLC(TLCOpts{Module: "BuildersTrace", Workers: 1, Timeout: 10 * time.Minute,
+			Env: map[string]string{"VERIF_EXT": f.extPath, "VERIF_HDR_PER_LINE": f.perLine, "VERIF_TRACE": tp}})
+		if err != nil {
+			return 0, 0, err
+		}
+		return len(res.PrintsWithPrefix("VIOL")), len(res.PrintsWithPrefix("DRIFT")), nil
+	}
+	// keep the demonstration small: the first 40 episodes
+	n := 0
+	cut := len(f.lastRecs)
+	for i, rec := range f.lastRecs {
+		if m, ok := rec.(map[string]any); ok && m["ev"] == "done" {
+			n++
+			if n == 40 {
+				cut = i + 1
+				break
+			}
+		}
+	}
+	base := f.lastRecs[:cut]
+	v0, d0, err := run(base)
+	if err != nil {
+		return err
+	}
+	// (1) corrupt one recorded field: the permission token / flags of the first changed step
+	corrupted := make([]any, len(base))
+	copy(corrupted, base)
+	done := false
+	for i, rec := range corrupted {
+		m, ok := rec.(map[string]any)
+		if !ok || m["ev"] != "builder" || m["same"] == true || done {
+			continue
+		}
+		items, _ := m["after"].([]AItem)
+		if len(items) == 0 {
+			continue
+		}
+		cp := append([]AItem{}, items...)
+		for k := range cp {
+			if cp[k].T == "hdr" {
+				cp[k].Flags = append(append([]string{}, cp[k].Flags...), "kill")
+				cp[k].NFl = 1
+				done = true
+				break
+			}
+			if cp[k].T == "exec" {
+				cp[k].Perm = cp[k].Perm + "Ux"
+				done = true
+				break
+			}
+		}
+		nm := map[string]any{}
+		for k, v := range m {
+			nm[k] = v
+		}
+		nm["after"] = cp
+		corrupted[i] = nm
+	}
+	v1, d1, err := run(corrupted)
+	if err != nil {
+		return err
+	}
+	// (2) drop one hook event
+	dropped := []any{}
+	skipped := false
+	for _, rec := range base {
+		if m, ok := rec.(map[string]any); ok && m["ev"] == "builder" && !skipped {
+			skipped = true
+			continue
+		}
+		dropped = append(dropped, rec)
+	}
+	v2, d2, err := run(dropped)
+	if err != nil {
+		return err
+	}
+	f.r.Coverage["binding_demonstration"] = map[string]any{"baseline": []int{v0, d0}, "corrupted_field": []int{v1, d1}, "dropped_event": []int{v2, d2}}
+	if !done || v1+d1 <= v0+d0 || v2+d2 <= v0+d0 {
+		return fmt.Errorf("binding demonstration failed: corrupted trace %d/%d, dropped event %d/%d, baseline %d/%d (VIOL/DRIFT)", v1, d1, v2, d2, v0, d0)
+	}
 	return nil
 }
 
@@ -692,6 +800,7 @@ func (f *famBuilders) validate(eps []*episode, props map[string]bool, judgeGen m
 		}
 		recs = append(recs, map[string]any{"ev": "done"})
 	}
+	f.lastRecs = recs
 	recs = append(recs, extra...)
 	tp := filepath.Join(f.e.Scratch, fmt.Sprintf("builders-%d.ndjson", time.Now().UnixNano()))
 	if err := writeNDJSON(tp, recs); err != nil {
